@@ -237,6 +237,23 @@ def main(argv=None):
     # 3. correspondence + direct oracles
     cov = props.run_property(a.prop, spec, a.tier, rng, res, build_ok)
 
+    # 3b. recorded findings of this property: replay the witness
+    try:
+        kf = json.load(open(os.path.join(ROOT, "known_findings.json")))
+    except Exception as e:  # noqa
+        kf = {"findings": []}
+        res.notes.append("known_findings.json unreadable: %s" % e)
+    for f in kf.get("findings", []):
+        if f.get("property") != a.prop:
+            continue
+        ob = run_impl([f["witness"]], per_case=15 if f["fails_as"] == "hang" else 120)[0]
+        got = "hang" if isinstance(ob, dict) and "hang" in ob.get("error", "") else (
+            ob[2][0][1] if not isinstance(ob, dict) else "error: " + ob.get("error", "")[:200])
+        if got == f["fails_as"]:
+            res.known.append("%s: %s" % (f["id"], f["what"][:300]))
+        else:
+            res.notes.append("recorded finding %s no longer fails the recorded way (now: %s)" % (f["id"], got))
+
     # 4. protocol for a broken proof side
     if proof_broken and not res.violations:
         path = write_replay(res, "proof", {"property": a.prop, "no_failing_input_found": True,
